@@ -272,7 +272,16 @@ class SourceFile:
     def impls(self, pattern: str):
         """All impl blocks whose token-normalised header matches the regex `pattern` (full match)."""
         rx = re.compile("(?:" + pattern + r")(?: where .*)?")   # an added where-clause does not lose the anchor
-        return [it for it in self.walk() if it.kind == "impl" and rx.fullmatch(it.name)]
+        found = [it for it in self.walk() if it.kind == "impl" and rx.fullmatch(it.name)]
+        if found:
+            return found
+        # Fallback: compare only `Trait<..> for Type<..>` — the generic parameter list after `impl` and the where-clause
+        # are dropped on both sides, so that bounds moved between the two (or an added bound) do not lose the anchor.
+        try:
+            rx2 = re.compile(_impl_skeleton(pattern))
+        except re.error:
+            return []
+        return [it for it in self.walk() if it.kind == "impl" and rx2.fullmatch(_impl_skeleton(it.name))]
 
     def impl(self, pattern: str) -> Item:
         found = self.impls(pattern)
@@ -296,6 +305,36 @@ class SourceFile:
         if len(cands) != 1:
             raise ExtractError(f"{self.rel}: {kind} {name} matched {len(cands)} items")
         return cands[0]
+
+
+def _impl_skeleton(header: str) -> str:
+    """`impl < G > Trait for Type where W`  ->  `Trait for Type` (works on token-normalised headers and on the
+    regex patterns written against them)."""
+    toks = header.split(" ")
+    if toks and toks[0] == "impl":
+        k = 1
+        if k < len(toks) and toks[k] == "<":
+            depth = 0
+            while k < len(toks):
+                if toks[k] == "<":
+                    depth += 1
+                elif toks[k] == ">":
+                    depth -= 1
+                    if depth == 0:
+                        k += 1
+                        break
+                k += 1
+        toks = toks[k:]
+    depth = 0
+    for i, t in enumerate(toks):
+        if t == "<":
+            depth += 1
+        elif t == ">":
+            depth -= 1
+        elif t == "where" and depth == 0:
+            toks = toks[:i]
+            break
+    return " ".join(toks)
 
 
 def split_fn(it: Item):
